@@ -1,11 +1,27 @@
 import GrinVerif.Drv.Common
 import GrinVerif.Model.Cons
+import GrinVerif.Model.ConsNet
 /-! Driver glue for the `cons` domain (property C04): header rules and difficulty retarget.
 
 Token formats: chain type `main|test|auto|user`; a difficulty-window entry
 `ts:diff:scaling:sec` (`sec` 0/1), windows `[e,e,…]` latest first; an abstract header
 `height:ts:version:total_difficulty:secondary_scaling:edge_bits:hash64:output_mmr_size:kernel_mmr_size`
-(`none` for a missing parent); booleans `0|1`. -/
+(`none` for a missing parent); booleans `0|1`; a network header
+`<pre_pow hex>/<n1.n2.….nk | ->/<abstract header>` (the bytes the proof of work is seeded with, the
+proof nonces, the rule fields).
+
+Ops of the `powsize` and `wire` runs (network side of the rules, `Model/ConsNet.lean`):
+* `vsz <ct> <nethdr> => ok|<verifier error>`: `pow::verify_size` on a header with these fields; the
+  model builds the context from the header's CLAIMED edge bits.  Accept/refuse is fixed by the
+  property ("has a proof of work" = a cycle on the graph of the claimed size): FAIL; the error kind is
+  an internal observable: DIFF.
+* `wire <path> <pv> <ct> <now> <ftl> <nethdr> => ok|CorruptedData|InvalidBlockVersion`: the header read
+  through the `Untrusted*` reader of that path (`hdr`, `cblk`, `blk` directly; `msg-hdr`, `msg-cblk`,
+  `msg-blk` through the real `Codec`); the model is the one function `netHeaderOk` whatever the path.
+* `wirehs <pv> <ct> <now> <ftl> [nethdr,…] => …`: a `Headers` message through the real `Codec`.
+* `wiredec <path> <pv> <ct> <edge_bits> => CorruptedData`: the header cannot even be read (`Proof::read`).
+* `pbhn <via> <ct> <opts> <rootok> <prev> <nethdr> <window> => ok|<chain error>`: a header delivered to a
+  real `Chain` (`via` = `pbh|sync|pb`), the verifier's answer computed by the model. -/
 namespace GV.Drv.ConsD
 open GV GV.Drv GV.Cons
 
@@ -271,7 +287,64 @@ def handleGlob (st : St) (args : List String) (impl : String) : St × Verdict :=
     | _, _, _ => (st, .unknown)
   | _ => (st, .unknown)
 
+/-- `<pre_pow hex>/<nonces joined by '.', '-' for none>/<abstract header>` -/
+def nethdr? (s : String) : Option NetHdr :=
+  match s.splitOn "/" with
+  | [pre, ns, h] =>
+    let nonces := if ns = "-" then some [] else (ns.splitOn ".").mapM nat?
+    match parseHex pre, nonces, hdr? h with
+    | some pre, some ns, some h => some { h := h, prePow := pre, nonces := ns }
+    | _, _, _ => none
+  | _ => none
+
+def showVs : Except VsErr Unit → String
+  | .ok () => "ok"
+  | .error e => e.name
+
+/-- accept / refuse is fixed by the property (either direction is a failing input), the error kind
+is the model's -/
+def cmpVerdict (model impl : String) : Verdict :=
+  if model = impl then .ok
+  else if (model = "ok") != (impl = "ok") then .fail model
+  else .diff model
+
+def netPath? : String → Option NetPath
+  | "hdr" | "msg-hdr" => some .header
+  | "cblk" | "msg-cblk" => some .compactBlock
+  | "blk" | "msg-blk" => some .block
+  | _ => none
+
+/-- the ops of the `powsize` and `wire` runs -/
+def handleNet (st : St) (args : List String) (impl : String) : Option (St × Verdict) :=
+  match args with
+  | ["vsz", c, n] => match ct? c, nethdr? n with
+    | some c, some n => some (st, cmpVerdict (showVs (verifySizeHdr c n)) impl)
+    | _, _ => some (st, .unknown)
+  | ["wire", p, _pv, c, now, ftl, n] => match netPath? p, ct? c, int? now, nat? ftl, nethdr? n with
+    | some p, some c, some now, some ftl, some n =>
+      some (st, cmpVerdict (showExc ReadErr.name (netRead p c now ftl n (.ok ()))) impl)
+    | _, _, _, _, _ => some (st, .unknown)
+  | ["wirehs", _pv, c, now, ftl, ns] => match ct? c, int? now, nat? ftl, listOf nethdr? ns with
+    | some c, some now, some ftl, some ns =>
+      some (st, cmpVerdict (showExc ReadErr.name (readHeadersMsg c now ftl ns)) impl)
+    | _, _, _, _ => some (st, .unknown)
+  | ["wiredec", p, _pv, c, eb] => match netPath? p, ct? c, nat? eb with
+    | some _, some c, some eb =>
+      some (st, cmpVerdict (if proofReadable eb (Pow.proofsizeOf (powCt c)) then "readable" else "CorruptedData") impl)
+    | _, _, _ => some (st, .unknown)
+  | ["pbhn", via, c, o, rok, prev, n, w] =>
+    if via = "pbh" || via = "sync" || via = "pb" then
+      match ct? c, opts? o, bool? rok, optHdr? prev, nethdr? n, window? w with
+      | some c, some o, some rok, some prev, some n, some w =>
+        some (st, cmpAccept (showExc Err.name (processBlockHeader (ctxForNet c o.skipPow prev w n) rok n.h)) impl)
+      | _, _, _, _, _, _ => some (st, .unknown)
+    else some (st, .unknown)
+  | _ => none
+
 def handle (st : St) (args : List String) (impl : String) : St × Verdict :=
+  match handleNet st args impl with
+  | some r => r
+  | none =>
   match args with
   | "node" :: id :: rest => handleNode false st id rest impl
   | "wnode" :: id :: rest => handleNode true st id rest impl
